@@ -159,8 +159,13 @@ def c10():
     to = 120000 if tier == 'quick' else 1800000
     items = []
     for isa in ISAS:
-        items += items_for(isa, S.let_shapes(isa, tier) + S.create_shapes(isa, tier), N, ['footprint'], to)
-        items += items_for(isa, S.switch_shapes(isa, tier, [1, 3]), N, ['footprint'], to)
+        # the footprint clauses presuppose the heap invariant (a leaked block also breaks the bound), so both
+        # classes are discharged for the allocating shapes; loads get the footprint class (frontier unchanged) and
+        # the heap class on the multi-block shapes (every block of a released object must return to a free list)
+        items += items_for(isa, S.let_shapes(isa, tier) + S.create_shapes(isa, tier), N, ['footprint', 'heap'], to)
+        sw = S.switch_shapes(isa, tier)
+        items += items_for(isa, [s_ for s_ in sw if max(len(c) for c in s_['clauses']) > 3], N, ['footprint', 'heap'], to)
+        items += items_for(isa, [s_ for s_ in sw if max(len(c) for c in s_['clauses']) in (1, 3)], N, ['footprint'], to)
     run_items(chk, items, rule="allocation shapes: frontier moves only when both free lists are exhausted, by at most one block per "
                                "acquisition, and leaves exactly the bumped block on the linear list; loads never move it")
     return chk.finish()
